@@ -73,3 +73,17 @@ u32 M_toupper(u32 c_) { int c = (int)c_; return (c >= 'a' && c <= 'z') ? (u32)(c
 u32 M_memcmp(u8* a, u8* b, u64 n) { for (u64 i = 0; i < n; i++) { if (a[i] != b[i]) return a[i] < b[i] ? (u32)-1 : 1u; } return 0; }
 u64 M_strlen(u8* s) { return c_len(s); }
 u8* M_memchr(u8* s, u32 c, u64 n) { for (u64 i = 0; i < n; i++) if (s[i] == (u8)c) return s + i; return 0; }
+/* ---- iostreams: the first word of every stream (sub-)object points to a heap ADT string that
+   holds everything written so far.  basic_stringstream: istream at +0, ostream at +16. */
+#define OS_BUF(os) (*(u8**)(os))
+static u8* strm_newbuf(void) { u8* b = (u8*)malloc(32); IR_ASSUME(b != 0); s_init(b); return b; }
+void M_ss_ctor(u8* ss) { u8* b = strm_newbuf(); *(u8**)ss = b; *(u8**)(ss + 16) = b; }
+void M_ss_dtor(u8* ss) { u8* b = *(u8**)ss; free(S_P(b)); free(b); }
+void M_ss_str(u8* ret, u8* ss) { u8* b = *(u8**)ss; s_init(ret); s_set(ret, S_P(b), S_LEN(b)); }
+void M_oss_ctor(u8* ss) { *(u8**)ss = strm_newbuf(); }
+void M_oss_dtor(u8* ss) { u8* b = *(u8**)ss; free(S_P(b)); free(b); }
+void M_oss_str(u8* ret, u8* ss) { u8* b = *(u8**)ss; s_init(ret); s_set(ret, S_P(b), S_LEN(b)); }
+u8* M_os_insert(u8* os, u8* c, u64 n) { STR(6appendEPKcm)(OS_BUF(os), c, n); return os; }
+u8* M_os_ls_cstr(u8* os, u8* c) { STR(6appendEPKcm)(OS_BUF(os), c, c_len(c)); return os; }
+u8* M_os_ls_char(u8* os, u8 c) { STR(6appendEPKcm)(OS_BUF(os), &c, 1); return os; }
+u8* M_os_ls_str(u8* os, u8* s) { STR(6appendEPKcm)(OS_BUF(os), S_P(s), S_LEN(s)); return os; }
